@@ -9,6 +9,7 @@ import (
 	"github.com/bronlabs/bron-crypto/pkg/base"
 	"github.com/bronlabs/bron-crypto/pkg/base/algebra"
 	"github.com/bronlabs/bron-crypto/pkg/base/nt/cardinal"
+	"github.com/bronlabs/bron-crypto/pkg/base/serde"
 )
 
 // Group is the model cyclic group of prime order q written in its discrete-log representation
@@ -94,12 +95,14 @@ func (g *Group) Random(prng io.Reader) (*G, error) {
 // the input; the genericity assumption "not the identity, not the generator" is recorded (the
 // library's own NewCommitmentKeyUnchecked refuses exactly those).
 func (g *Group) Hash(b []byte) (*G, error) {
-	p := g.run.newVar("hashG:" + digestHex(b))
+	p := g.run.newVarL("hashG:" + digestHex(b))
 	if !g.run.concrete {
+		g.run.mu.Lock()
 		for _, c := range []int64{0, 1} {
 			lit := Not(simplifyEqZ(p.sub(polyConst(big.NewInt(c), g.f.q), g.f.q)))
 			g.run.addPath(lit)
 		}
+		g.run.mu.Unlock()
 	}
 	return g.mk(p), nil
 }
@@ -164,3 +167,21 @@ func (e *G) String() string {
 }
 
 func (e *G) MarshalBinary() ([]byte, error) { return e.Bytes(), nil }
+
+func (e *G) MarshalCBOR() ([]byte, error) { return serde.MarshalCBOR(&elemDTO{B: e.Bytes()}) }
+
+func (e *G) UnmarshalCBOR(data []byte) error {
+	dto, err := serde.UnmarshalCBOR[*elemDTO](data)
+	if err != nil {
+		return err
+	}
+	if current == nil {
+		return fmt.Errorf("symalg: no active run")
+	}
+	v, err := current.group.FromBytes(dto.B)
+	if err != nil {
+		return err
+	}
+	*e = *v
+	return nil
+}
